@@ -874,6 +874,11 @@ func (h *sentPacketHandler) OnLossDetectionTimeout(now monotime.Time) error {
 	if h.handshakeConfirmed {
 		h.detectLostPathProbes(now)
 	}
+	// The alarm was armed for the loss of a path probe packet only.
+	// Neither the loss timer nor the PTO has expired: this must not count as a PTO.
+	if h.alarm.TimerType == qlog.TimerTypePathProbe {
+		return nil
+	}
 
 	earliestLossTime, encLevel := h.getLossTimeAndSpace()
 	if !earliestLossTime.IsZero() {
